@@ -16,12 +16,18 @@ package xml
 //@   requires[S] l != nil && l.r != nil && bufInv(l.r) && forall(k, 0, len(b), b[k] != 0)
 //@   ensures[S]  result ==> l.r.pos + len(b) <= len(l.r.buf)-1
 //@   ensures[F]  result ==> forall(k, 0, len(b), l.r.buf[l.r.pos+k] == b[k])
+//@   ensures[F]  @nonzero: result ==> forall(k, l.r.pos, l.r.pos + len(b), l.r.buf[k] != 0)
 //@   loop 1 invariant -1 <= rangeindex && rangeindex < len(b) && l.r.pos + rangeindex + 1 <= len(l.r.buf)-1
 //@   loop 1 invariant[F] forall(j, 0, rangeindex+1, l.r.buf[l.r.pos+j] == b[j])
+//@   loop 1 invariant[F] forall(q, l.r.pos, l.r.pos+rangeindex+1, l.r.buf[q] != 0)
 //@   loop 1 decreases len(b) - rangeindex
 
 //@ func Lexer.shiftDOCTYPEText
 //@   preserves[S] scanInv(l)
+//@   ensures[F,C11] @not-in-literal: l.r.buf[l.r.pos] != 0 ==> l.r.pos > old(l.r.pos) && l.r.buf[l.r.pos-1] == '>' && cnt(l.r.buf, '"', old(l.r.pos), l.r.pos-1) % 2 == 0
+//@   loop 1 invariant[F] inString <==> (cnt(l.r.buf, '"', old(l.r.pos), l.r.pos) % 2 == 1)
+//@   ensures[F,C11] @no-nul: forall(k, old(l.r.pos), l.r.pos, l.r.buf[k] != 0)
+//@   loop * candidate[F] forall(k, old(l.r.pos), l.r.pos, l.r.buf[k] != 0)
 //@   ensures[T]  sameMem(result, l.r.buf[old(l.r.start):l.r.pos]) && cap(result) == len(result)
 //@   ensures[T]  l.text == nil || within(l.text, result)
 //@   loop * invariant l.r.start == old(l.r.start)
@@ -31,6 +37,8 @@ package xml
 
 //@ func Lexer.shiftCDATAText
 //@   preserves[S] scanInv(l)
+//@   ensures[F,C11] @no-nul: forall(k, old(l.r.pos), l.r.pos, l.r.buf[k] != 0)
+//@   loop * candidate[F] forall(k, old(l.r.pos), l.r.pos, l.r.buf[k] != 0)
 //@   ensures[F,C11] @first-terminator: forall(k, old(l.r.pos), l.r.pos-3, !(l.r.buf[k] == ']' && l.r.buf[k+1] == ']' && l.r.buf[k+2] == '>'))
 //@   ensures[F,C11] @ends: l.r.buf[l.r.pos] == 0 || (l.r.pos >= old(l.r.pos)+3 && l.r.buf[l.r.pos-3] == ']' && l.r.buf[l.r.pos-2] == ']' && l.r.buf[l.r.pos-1] == '>')
 //@   loop 1 invariant[F] forall(k, old(l.r.pos), l.r.pos, !(l.r.buf[k] == ']' && l.r.buf[k+1] == ']' && l.r.buf[k+2] == '>'))
@@ -43,6 +51,8 @@ package xml
 
 //@ func Lexer.shiftCommentText
 //@   preserves[S] scanInv(l)
+//@   ensures[F,C11] @no-nul: forall(k, old(l.r.pos), l.r.pos, l.r.buf[k] != 0)
+//@   loop * candidate[F] forall(k, old(l.r.pos), l.r.pos, l.r.buf[k] != 0)
 //@   requires[T] l.text == nil
 //@   ensures[F,C11] @first-terminator: forall(k, old(l.r.pos), l.r.pos-3, !(l.r.buf[k] == '-' && l.r.buf[k+1] == '-' && l.r.buf[k+2] == '>'))
 //@   ensures[F,C11] @ends: l.r.buf[l.r.pos] == 0 || (l.r.pos >= old(l.r.pos)+3 && l.r.buf[l.r.pos-3] == '-' && l.r.buf[l.r.pos-2] == '-' && l.r.buf[l.r.pos-1] == '>')
@@ -56,6 +66,8 @@ package xml
 
 //@ func Lexer.shiftStartTag
 //@   preserves[S] scanInv(l)
+//@   ensures[F,C11] @no-nul: forall(k, old(l.r.pos), l.r.pos, l.r.buf[k] != 0)
+//@   loop * candidate[F] forall(k, old(l.r.pos), l.r.pos, l.r.buf[k] != 0)
 //@   ensures[T]  sameMem(result, l.r.buf[old(l.r.start):l.r.pos]) && cap(result) == len(result)
 //@   ensures[T]  l.text == nil || within(l.text, result)
 //@   loop * invariant l.r.start == old(l.r.start)
@@ -64,6 +76,8 @@ package xml
 
 //@ func Lexer.shiftAttribute
 //@   preserves[S] scanInv(l)
+//@   ensures[F,C11] @no-nul: forall(k, old(l.r.pos), l.r.pos, l.r.buf[k] != 0)
+//@   loop * candidate[F] forall(k, old(l.r.pos), l.r.pos, l.r.buf[k] != 0)
 //@   ensures[T]  sameMem(result, l.r.buf[old(l.r.start):l.r.pos]) && cap(result) == len(result)
 //@   ensures[T]  l.text == nil || within(l.text, result)
 //@   requires[S] l.r.buf[l.r.pos] != 0 && !isXMLWS(l.r.buf[l.r.pos]) && l.r.buf[l.r.pos] != '>'
@@ -81,6 +95,8 @@ package xml
 
 //@ func Lexer.shiftEndTag
 //@   preserves[S] scanInv(l)
+//@   ensures[F,C11] @no-nul: forall(k, old(l.r.pos), l.r.pos, l.r.buf[k] != 0)
+//@   loop * candidate[F] forall(k, old(l.r.pos), l.r.pos, l.r.buf[k] != 0)
 //@   ensures[T]  sameMem(result, l.r.buf[old(l.r.start):l.r.pos]) && cap(result) == len(result)
 //@   ensures[T]  l.text == nil || within(l.text, result)
 //@   requires[S] l.r.pos - l.r.start >= 2
@@ -113,6 +129,8 @@ package xml
 //@   ensures[F,C11] @close: result0 == StartTagCloseToken || result0 == StartTagCloseVoidToken || result0 == StartTagClosePIToken ==> old(l.inTag) && !l.inTag
 //@   ensures[F,C11] @content: result0 == TextToken || result0 == CommentToken || result0 == CDATAToken || result0 == DOCTYPEToken || result0 == EndTagToken ==> !old(l.inTag) && !l.inTag
 //@   ensures[F,C11] @nul: result0 == ErrorToken ==> l.err != nil || l.r.pos == len(l.r.buf)-1
+//@   ensures[F,C11] @no-nul: result0 != ErrorToken ==> forall(k, old(l.r.pos), l.r.pos, l.r.buf[k] != 0)
+//@   loop * candidate[F] forall(k, old(l.r.pos), l.r.pos, l.r.buf[k] != 0)
 //@   ensures[F,C11] @nul-err: result0 == ErrorToken && l.r.pos < len(l.r.buf)-1 && l.r.err == nil ==> l.err != nil && l.r.buf[l.r.pos] == 0
 
 //@ func Lexer.Err
